@@ -112,6 +112,10 @@ type Encoder struct {
 	nonLocalKeys map[string]bool
 	loopOuterAllocs map[*ssa.Alloc]bool
 	reachedPC  map[string]string
+	curInstr   ssa.Instruction
+	ordLog     map[string][]ssa.Instruction
+	ordSeed    map[string][]ssa.Instruction
+	loopMapKeys map[string]string
 }
 
 type loopInfo struct {
@@ -561,6 +565,16 @@ func (e *Encoder) memKeysWritten(blocks map[*ssa.BasicBlock]bool, skip map[ssa.I
 	keys = map[string]types.Type{}
 	e.nonLocalKeys = map[string]bool{}
 	e.loopOuterAllocs = map[*ssa.Alloc]bool{}
+	e.loopMapKeys = map[string]string{}
+	noteMap := func(t types.Type) bool {
+		mt, ok := t.Underlying().(*types.Map)
+		if !ok {
+			return false
+		}
+		dk, ds, vk, vs := e.envFor(e.entry).mapKeys(mt)
+		e.loopMapKeys[dk], e.loopMapKeys[vk] = ds, vs
+		return true
+	}
 	local := false // the store being classified goes through an address rooted at a local Alloc
 	// shape: 0 both, 1 flat only, 2 array only
 	var addShaped func(t types.Type, shape int)
@@ -609,7 +623,9 @@ func (e *Encoder) memKeysWritten(blocks map[*ssa.BasicBlock]bool, skip map[ssa.I
 					addType(in.Val.Type())
 				}
 			case *ssa.MapUpdate:
-				all = true
+				if !noteMap(in.Map.Type()) {
+					all = true
+				}
 			case *ssa.Call:
 				cm := in.Common()
 				if bi, ok := cm.Value.(*ssa.Builtin); ok {
@@ -619,7 +635,11 @@ func (e *Encoder) memKeysWritten(blocks map[*ssa.BasicBlock]bool, skip map[ssa.I
 							addType(st.Elem())
 						}
 					case "len", "cap", "min", "max", "panic", "print", "println":
-					case "delete", "clear":
+					case "delete":
+						if !noteMap(cm.Args[0].Type()) {
+							all = true
+						}
+					case "clear":
 						all = true
 					default:
 						all = true
